@@ -18,13 +18,14 @@ EXTENDS Naturals, Sequences, FiniteSets, TLC
 CONSTANTS BoundedWalk,   \* TRUE: the link_map walk stops after MaxLinkMaps entries; FALSE: it follows l_next until 0 or an unreadable address
           MaxLinkMaps, NNodes,
           CheckedDeadline,   \* TRUE: the deadline of the wait for the group stop is computed with a checked addition (none if it overflows); FALSE: `now + timeout`
+          SatWindow,         \* TRUE: the bounds ip - 128 / ip + 128 of the window around the crashing instruction are formed with saturating arithmetic; FALSE: plain `-` / `+` (see ap/IpWindowAp)
           CheckedExtent,     \* TRUE: the end of a caller-supplied mapping is computed with a saturating / checked addition; FALSE: `start + size`
           WaitHasDeadline,   \* TRUE: the wait for an attached thread's stop gives up after some time; FALSE: waitpid(tid, __WALL) without a bound
           StopOnDecodeError  \* TRUE: the SONAME scan of a module's dynamic section gives up at the first entry it cannot decode; FALSE: it skips it and asks for the next
 
 SpClass  == {"none", "in_stack", "guard", "unmapped", "top_page", "misaligned", "zero", "reserved_tail"}   \* reserved_tail: in the inaccessible reservation behind a module's text, which is folded
                                                                                                            \* into the module (with the skip rule on and that module the principal one: the stack copy is shorter than the SP offset)
-IpClass  == {"interior", "first_bytes", "last_bytes", "unmapped", "zero", "max"}
+IpClass  == {"interior", "first_bytes", "last_bytes", "unmapped", "zero", "max", "page_zero"}   \* page_zero: in a page mapped at address 0 (fewer bytes before it than half the window)
 PhnumClass == {"true", "zero", "larger", "huge", "alloc_huge"}   \* huge: count * entry size overflows; alloc_huge: it does not, but no such buffer can be allocated
 AppClass == {"none", "small", "unmapped", "len_over_isize", "len_64TiB"}   \* a caller-requested memory region
 PhdrClass == {"true", "unmapped", "unaligned"}
@@ -87,7 +88,11 @@ AttachWait == /\ pc = "attachwait"
               /\ UNCHANGED softErrs
 (* get_stack_info on the crash stack pointer: Ok(region) or Err(NoStackPointerMapping); never anything else *)
 StackStep == pc = "stack" /\ Go("ipwindow") /\ UNCHANGED softErrs
-IpWindow  == pc = "ipwindow" /\ Go("usermaps") /\ UNCHANGED softErrs
+IpWindow  == /\ pc = "ipwindow"
+             /\ IF inp.ip = "page_zero" /\ ~SatWindow
+                  THEN pc' = "done" /\ outcome' = "panic" /\ UNCHANGED <<inp, opened, cur, count, dynpos>>
+                  ELSE Go("usermaps")
+             /\ UNCHANGED softErrs
 (* copy_from_process(ptr, length): the buffer for `length` bytes is requested fallibly; failure to get it, or to read, is Err *)
 AppMem    == /\ pc = "appmem"
              /\ IF AppFails(inp) THEN pc' = "done" /\ outcome' = "err" /\ UNCHANGED <<inp, opened, cur, count, dynpos>>
